@@ -1,7 +1,8 @@
 (* C03 — coefficient-wise modular operations are exact for every operand and every modulus of the tables.
    Statements only.  The models (Functors.v, ScalarOps.v) carry the C++ machine-word wrap explicitly. *)
 From Coq Require Import ZArith List.
-From NTT Require Import Functors ScalarOps ScalarClosed Simd Promote16.
+From NTT Require Import Functors ScalarOps ScalarClosed Simd Promote16 GenCorrect.
+From NTT.gen Require Gen.
 From NTT.gen Require Import Params.
 Local Open Scope Z_scope.
 
@@ -53,3 +54,20 @@ Theorem C03_u16_promotion_butterfly : forall p wt a b, Hrow 16 p -> 0 <= wt < p 
   Promote16.bfly16 p wt ((wt * 2 ^ 16) / p) a b = Some (bfly_lazy 16 p wt ((wt * 2 ^ 16) / p) a b).
 Proof. exact Promote16.bfly16_ok. Qed.
 Print Assumptions C03_u16_promotion_butterfly.
+
+(* THE SOURCE ITSELF: gen/Gen.v is translated from the C++ on every run (tools/cxx2coq.py, through clang's AST of the explicit
+   instantiations, with every integer promotion and conversion explicit).  For every row of every generated table the translated
+   addmod, submod, mulmod, muladd, compute_shoup (any word), mulmod_shoup and muladd_shoup return exactly the modular values above and
+   never reach undefined behaviour (a signed overflow would make them None). *)
+Theorem C03_source_exact_all_rows :
+  (forall r, In r rows16 -> let p := fst (fst (fst r)) in
+     GenCorrect.source_exact 16 p Gen.gen_addmod_u16 Gen.gen_submod_u16 Gen.gen_mulmod_u16 Gen.gen_compute_shoup_u16 Gen.gen_mulmod_shoup_u16 Gen.gen_muladd_shoup_u16 /\
+     forall z x y, 0 <= z < p -> 0 <= x < p -> 0 <= y < p -> Gen.gen_mulmod_u16 p x y = Some ((x * y) mod p) /\ Gen.gen_muladd_u16 p z x y = Some ((x * y + z) mod p)) /\
+  (forall r, In r rows32 -> let p := fst (fst (fst r)) in
+     GenCorrect.source_exact 32 p Gen.gen_addmod_u32 Gen.gen_submod_u32 Gen.gen_mulmod_u32 Gen.gen_compute_shoup_u32 Gen.gen_mulmod_shoup_u32 Gen.gen_muladd_shoup_u32 /\
+     forall z x y, 0 <= z < p -> 0 <= x < p -> 0 <= y < p -> Gen.gen_mulmod_u32 p x y = Some ((x * y) mod p) /\ Gen.gen_muladd_u32 p z x y = Some ((x * y + z) mod p)) /\
+  (forall r, In r rows64 -> let p := fst (fst (fst r)) in let pn := snd (fst (fst r)) in
+     GenCorrect.source_exact 64 p Gen.gen_addmod_u64 Gen.gen_submod_u64 (fun p x y => None) Gen.gen_compute_shoup_u64 Gen.gen_mulmod_shoup_u64 Gen.gen_muladd_shoup_u64 /\
+     forall z x y, 0 <= z < p -> 0 <= x < p -> 0 <= y < p -> Gen.gen_mulmod_u64 p pn x y = Some ((x * y) mod p) /\ Gen.gen_muladd_u64 p pn z x y = Some ((x * y + z) mod p)).
+Proof. exact GenCorrect.source_exact_tables. Qed.
+Print Assumptions C03_source_exact_all_rows.
